@@ -568,6 +568,7 @@ func init() {
 			"every box with drawn margin/padding/border, break-before/after/inside values (page, left, right, always, avoid), orphans/widows 1-4, box-decoration-break; no explicit heights. Page 40-200 x 20-200 px, margin 0-10, Ahem 10px/1 (a line is 10 px), optional :first/:left/margin-box/@footnote page rules; pango engine, go-text one case in six. " +
 			"Oracle (layout level): walking the pages in order and each page's box tree in document order, the indices met for each flow must be exactly 0..n-1 (nothing lost, duplicated or reordered); header/footer flows must be 1..#pages complete runs. Oracle (draw level): per page, the multiset of DrawText texts equals the multiset of the texts of the page's visible, non-blank text boxes (go-text: equal counts, as that engine leaves the text of a drawing empty). " +
 			"Fixed-position flows (1-2 words, explicitly positioned, one in three holding another fixed box): every word exactly once on every page. " +
+			"Tables may hold a second thead / tfoot (an ordinary row group, once); one document in eight gives paragraphs an inline ::first-letter box. " +
 			"Non-trivial: >= 2 pages and at least one flow laid out over more than one page.",
 		ImportantLabels: []string{"fixed", "pages>1", "flow-over-pages", "table", "float", "abspos", "inline-block", "footnote", "columns", "list", "orphans-widows", "forced-or-avoided-break", "break-inside-avoid", "group-repeated", "engine:gotext", "flex", "grid"},
 		Assumptions:     []string{"crashes and hangs belong to C01 and are excluded", "running elements (another CSS-defined repetition) are not generated"},
